@@ -358,6 +358,35 @@ def check(an: Analysis) -> None:
         if not (isinstance(v, ast.Call) and isinstance(v.func, ast.Attribute) and v.func.attr == "result" and dotted(v.func.value) == "self._completed"):
             ob.fail(tf, n.ast, "a completed scope does not report the stored completion time (it keeps changing)")
 
+    # is_completed (used by the parent's nested guard and reported to users): false while the own future is pending
+    ob = an.ob("C09.11", "K8", "ScopeMetrics.is_completed (the parent's nested guard and the user-visible report) is false while the scope's own completion future is pending and true once it and every nested scope completed", [f"{SM}.is_completed"])
+    isc = prog.fn(f"{SM}.is_completed")
+    from ..kinds import eval_expr
+
+    for r in [r for r in isc.own_nodes() if isinstance(r, ast.Return)]:
+        ob.inst(isc, r, "is_completed")
+
+        def env_pending(e: ast.AST):
+            if isinstance(e, ast.Call) and isinstance(e.func, ast.Attribute) and e.func.attr == "done" and dotted(e.func.value) == "self._completed":
+                return False
+            return NOVALUE
+
+        def env_all_done(e: ast.AST):
+            if isinstance(e, ast.Call) and isinstance(e.func, ast.Attribute) and e.func.attr == "done" and dotted(e.func.value) == "self._completed":
+                return True
+            if isinstance(e, ast.Call) and is_name(e.func, "all"):
+                return True
+            if isinstance(e, ast.Call) and is_name(e.func, "any"):
+                return False
+            return NOVALUE
+
+        v1 = eval_expr(r.value, env_pending)
+        if v1 is NOVALUE or v1:
+            ob.fail(isc, r, "is_completed can be true while the scope's own completion is still pending: a parent then completes (and fires its callback) before this scope was left")
+        v2 = eval_expr(r.value, env_all_done)
+        if v2 is not NOVALUE and not v2:
+            ob.fail(isc, r, "is_completed is false although the scope and all nested scopes completed")
+
     # ------------------------------------------------------------------ C09.8 failing enter finishes the pre-registered metrics
     saenter = prog.fn("context.access.ScopeContext.__aenter__")
     gs = an.cfg(saenter)
